@@ -177,3 +177,31 @@ package atree
 //@   ensures[C02] err == nil ==> hkSorted(e)
 //@   ensures[C06] err == nil ==> hkSized(e)
 //@   modifies e.hkeys, e.elems, e.size, ghost.touched, alloc
+
+//@ # ---------------------------------------------------------------- map_elements_nokey.go: last-level collision list (C02, C12, C13, C18)
+
+//@ pred wfSEs(e *singleElements) = e != nil && (forall k :: 0 <= k && k < len(e.elems) ==> e.elems[k] != nil)
+
+//@ func NewHashLevelErrorf(msg, args) (r)  serves C18
+//@   ensures r != nil && isFatal(r) && fresh(r)
+//@   modifies alloc
+
+//@ # linear lookup in insertion order: the first element whose key equals the looked-up key (caller's equality), else key-not-found;
+//@ # a comparator failure is reported as an external error
+//@ func (e *singleElements) get(storage, digester, level, hkey, comparator, key) (k, v, idx, err)  serves C02 C12 C18
+//@   requires wfSEs(e) && digester != nil && comparator != nil
+//@   ensures[C02] err == nil ==> 0 <= idx && idx < len(e.elems) && k == e.elems[idx].key && v == e.elems[idx].value && keq(key, e.elems[idx].key) &&
+//@        (forall j :: 0 <= j && j < idx ==> !keq(key, e.elems[j].key))
+//@   ensures[C18] err != nil ==> categorised(err) && k == nil && v == nil
+//@   modifies alloc
+//@   loop 1: invariant 0 <= i && i <= len(e.elems) && (forall j :: 0 <= j && j < i ==> !keq(key, e.elems[j].key))
+
+//@ func (e *singleElements) Remove(storage, digester, level, hkey, comparator, key) (k, v, err)  serves C02 C12 C18
+//@   requires wfSEs(e) && digester != nil && comparator != nil
+//@   ensures[C02] err == nil ==> len(e.elems) == len(old(e.elems)) - 1 &&
+//@        (exists p :: 0 <= p && p < len(old(e.elems)) && k == old(e.elems)[p].key && v == old(e.elems)[p].value && keq(key, old(e.elems)[p].key) &&
+//@           (forall j :: 0 <= j && j < p ==> e.elems[j] == old(e.elems)[j] && !keq(key, old(e.elems)[j].key)) &&
+//@           (forall j :: p <= j && j < len(e.elems) ==> e.elems[j] == old(e.elems)[j + 1]))
+//@   ensures[C18] err != nil ==> categorised(err) && e.elems == old(e.elems) && e.size == old(e.size)
+//@   modifies e.elems, e.size, ghost.touched, alloc
+//@   loop 1: invariant 0 <= i && i <= len(e.elems) && e.elems == old(e.elems) && e.size == old(e.size) && (forall j :: 0 <= j && j < i ==> !keq(key, e.elems[j].key))
